@@ -1,17 +1,83 @@
 /-
 Driver for the B-spline models at K := ℚ.  `lake env lean --run Drivers/C07.lean`
+
+ops (all rationals as "num/den" strings)
+  find_span    {knots, degree, x}                              -> {span}
+  basis        {knots, degree, x, span, der}                   -> {values, abs}
+  eval1d       {knots, degree, coeffs, xs, der}                -> {ys, scales, spans}
+  eval2d       {knots1, deg1, knots2, deg2, coeffs[[..]], xs, ys, der1, der2, mode: "cross"|"zip"} -> {zs, scales}
+  cu_find_span {xmin, dx, x, ncells}                           -> {span, offset}
+  cu_basis     {offset, dx, der}                               -> {values, abs}
+  cu_eval1d    {xmin, dx, ncells, coeffs, xs, der}             -> {ys, scales, spans, offsets}
+  cu_eval2d    {xmin, dx, ncx, ymin, dy, ncy, coeffs[[..]], xs, ys, der1, der2, mode} -> {zs, scales}
+
+`abs`/`scales` are running condition numbers for the float comparison: the same sums with every term replaced by
+its absolute value (for derivatives: `|saved_{j-1}| + |saved_j|` instead of `saved_{j-1} - saved_j`).
 -/
 import PygyroVerif.DriverUtil
 import PygyroVerif.Model.BSpline
+import PygyroVerif.Model.CubicUniform
 import Mathlib.Algebra.Order.Field.Rat
 
-open Lean PygyroVerif PygyroVerif.DriverUtil PygyroVerif.BSpline
+open Lean PygyroVerif PygyroVerif.DriverUtil PygyroVerif.BSpline PygyroVerif.CubicUniform
 
 def fn (l : List Rat) : ℕ → Rat := let a := l.toArray; fun i => a.getD i 0
+
+def fn2 (l : List (List Rat)) : ℕ → ℕ → Rat :=
+  let a := (l.map List.toArray).toArray
+  fun i j => (a.getD i #[]).getD j 0
 
 def jOptRat : Option Rat → Json
   | some q => jRat q
   | none => Json.null
+
+def jInt' (z : Int) : Json := toJson z
+
+/-- Python's `int(q)`: truncation toward zero -/
+def truncRat (q : Rat) : Int := Int.tdiv q.num q.den
+
+def absR (q : Rat) : Rat := if q < 0 then -q else q
+
+/-- `|values[j]|`, or for derivatives `|saved_{j-1}| + |saved_j|` -/
+def absBasis (t : ℕ → Rat) (degree : ℕ) (x : Rat) (span : ℕ) (der : Bool) : List Rat :=
+  if der then
+    let values := basisFuns t (degree - 1) x span
+    (List.range (degree + 1)).map (fun j =>
+      (if j = 0 then 0 else absR (derSaved t degree span values (j - 1))) +
+      (if j < degree then absR (derSaved t degree span values j) else 0))
+  else (basisFuns t degree x span).map absR
+
+def cuAbsBasis (offset dx : Rat) (der : Bool) : List Rat :=
+  let b := absR (1 - offset)
+  let o := absR offset
+  if der then
+    let coeff := absR ((1/2) / dx)
+    [coeff * b * b, coeff * (1 + 2 * b + 3 * b * b), coeff * (1 + 2 * o + 3 * o * o), coeff * o * o]
+  else
+    let tmp := (1/2) * (1 + b * o)
+    [b * b * b / 6, 1/6 + b * tmp, 1/6 + o * tmp, o * o * o / 6]
+
+def absFn (c : ℕ → Rat) : ℕ → Rat := fun i => absR (c i)
+
+/-- tensor contraction `Σ_i (Σ_j c[r0+i, c0+j]·b2[j])·b1[i]` (same shape as the models) -/
+def tensor (c : ℕ → ℕ → Rat) (r0 c0 : ℕ) (b1 b2 : List Rat) : Rat :=
+  b1.zipIdx.foldl (fun z (bi : Rat × ℕ) => z + dotFrom (c (r0 + bi.2)) c0 b2 * bi.1) 0
+
+def scale2d (t1 : ℕ → Rat) (nk1 d1 : ℕ) (t2 : ℕ → Rat) (nk2 d2 : ℕ) (c : ℕ → ℕ → Rat)
+    (x y : Rat) (der1 der2 : Bool) : Option Rat :=
+  match findSpan t1 nk1 d1 x, findSpan t2 nk2 d2 y with
+  | some s1, some s2 =>
+    some (tensor (fun i j => absR (c i j)) (s1 - d1) (s2 - d2) (absBasis t1 d1 x s1 der1) (absBasis t2 d2 y s2 der2))
+  | _, _ => none
+
+def cuScale2d (xmin dx : Rat) (ncx : Int) (ymin dy : Rat) (ncy : Int) (c : ℕ → ℕ → Rat)
+    (x y : Rat) (der1 der2 : Bool) : Rat :=
+  let so1 := cuFindSpan truncRat xmin dx x ncx
+  let so2 := cuFindSpan truncRat ymin dy y ncy
+  tensor (fun i j => absR (c i j)) (so1.1 - 3).toNat (so2.1 - 3).toNat
+    (cuAbsBasis so1.2 dx der1) (cuAbsBasis so2.2 dy der2)
+
+def ratListList (j : Json) : R (List (List Rat)) := listOf ratList j
 
 def handle (j : Json) : R Json := do
   let op ← fStr j "op"
@@ -22,11 +88,61 @@ def handle (j : Json) : R Json := do
   | "basis" =>
     let kn ← fRatList j "knots"; let d ← fNat j "degree"; let x ← fRat j "x"
     let span ← fNat j "span"; let der ← fBool j "der"
-    pure <| obj [("values", jRats (basisOrDer (fn kn) d x span der))]
+    pure <| obj [("values", jRats (basisOrDer (fn kn) d x span der)),
+                 ("abs", jRats (absBasis (fn kn) d x span der))]
   | "eval1d" =>
     let kn ← fRatList j "knots"; let d ← fNat j "degree"; let c ← fRatList j "coeffs"
     let xs ← fRatList j "xs"; let der ← fBool j "der"
-    pure <| obj [("ys", jList jOptRat (xs.map (fun x => evalSpline1D (fn kn) kn.length d (fn c) x der)))]
+    let t := fn kn; let cf := fn c; let nk := kn.length
+    let spans := xs.map (fun x => findSpan t nk d x)
+    let scales := xs.map (fun x => (findSpan t nk d x).map (fun s => dotFrom (absFn cf) (s - d) (absBasis t d x s der)))
+    pure <| obj [("ys", jList jOptRat (xs.map (fun x => evalSpline1D t nk d cf x der))),
+                 ("scales", jList jOptRat scales), ("spans", jList jOptNat spans)]
+  | "eval2d" =>
+    let kn1 ← fRatList j "knots1"; let d1 ← fNat j "deg1"
+    let kn2 ← fRatList j "knots2"; let d2 ← fNat j "deg2"
+    let c ← ratListList (← field j "coeffs")
+    let xs ← fRatList j "xs"; let ys ← fRatList j "ys"
+    let der1 ← fBool j "der1"; let der2 ← fBool j "der2"; let mode ← fStr j "mode"
+    let t1 := fn kn1; let t2 := fn kn2; let cf := fn2 c
+    let ev := fun x y => evalSpline2D t1 kn1.length d1 t2 kn2.length d2 cf x y der1 der2
+    let sc := fun x y => scale2d t1 kn1.length d1 t2 kn2.length d2 cf x y der1 der2
+    if mode == "cross" then
+      pure <| obj [("zs", jList (fun x => jList jOptRat (ys.map (ev x))) xs),
+                   ("scales", jList (fun x => jList jOptRat (ys.map (sc x))) xs)]
+    else
+      pure <| obj [("zs", jList jOptRat ((xs.zip ys).map (fun p => ev p.1 p.2))),
+                   ("scales", jList jOptRat ((xs.zip ys).map (fun p => sc p.1 p.2)))]
+  | "cu_find_span" =>
+    let xmin ← fRat j "xmin"; let dx ← fRat j "dx"; let x ← fRat j "x"; let nc ← fInt j "ncells"
+    let so := cuFindSpan truncRat xmin dx x nc
+    pure <| obj [("span", jInt' so.1), ("offset", jRat so.2)]
+  | "cu_basis" =>
+    let o ← fRat j "offset"; let dx ← fRat j "dx"; let der ← fBool j "der"
+    pure <| obj [("values", jRats (cuBasisOrDer o dx der)), ("abs", jRats (cuAbsBasis o dx der))]
+  | "cu_eval1d" =>
+    let xmin ← fRat j "xmin"; let dx ← fRat j "dx"; let nc ← fInt j "ncells"
+    let c ← fRatList j "coeffs"; let xs ← fRatList j "xs"; let der ← fBool j "der"
+    let cf := fn c
+    let sos := xs.map (fun x => cuFindSpan truncRat xmin dx x nc)
+    pure <| obj [("ys", jRats (xs.map (fun x => cuEvalSpline1D truncRat xmin dx nc cf x der))),
+                 ("scales", jRats (sos.map (fun so => dotFrom (absFn cf) (so.1 - 3).toNat (cuAbsBasis so.2 dx der)))),
+                 ("spans", jList jInt' (sos.map (·.1))), ("offsets", jRats (sos.map (·.2)))]
+  | "cu_eval2d" =>
+    let xmin ← fRat j "xmin"; let dx ← fRat j "dx"; let ncx ← fInt j "ncx"
+    let ymin ← fRat j "ymin"; let dy ← fRat j "dy"; let ncy ← fInt j "ncy"
+    let c ← ratListList (← field j "coeffs")
+    let xs ← fRatList j "xs"; let ys ← fRatList j "ys"
+    let der1 ← fBool j "der1"; let der2 ← fBool j "der2"; let mode ← fStr j "mode"
+    let cf := fn2 c
+    let ev := fun x y => cuEvalSpline2D truncRat xmin dx ncx ymin dy ncy cf x y der1 der2
+    let sc := fun x y => cuScale2d xmin dx ncx ymin dy ncy cf x y der1 der2
+    if mode == "cross" then
+      pure <| obj [("zs", jList (fun x => jRats (ys.map (ev x))) xs),
+                   ("scales", jList (fun x => jRats (ys.map (sc x))) xs)]
+    else
+      pure <| obj [("zs", jRats ((xs.zip ys).map (fun p => ev p.1 p.2))),
+                   ("scales", jRats ((xs.zip ys).map (fun p => sc p.1 p.2)))]
   | _ => throw s!"unknown op {op}"
 
 def main : IO Unit := serve handle
